@@ -34,6 +34,13 @@ inductive Res (α : Type) where
   | assertion
 deriving DecidableEq, Repr, Inhabited
 
+/-- exceptions propagate -/
+def Res.bind {α β : Type} (r : Res α) (f : α → Res β) : Res β :=
+  match r with
+  | .ok a => f a
+  | .valueError => .valueError
+  | .assertion => .assertion
+
 /-- `location.strand == -1` -/
 def isRev (l : Loc) : Bool := l.strand == .rev
 
@@ -114,10 +121,7 @@ def subLocation (l : Loc) (s e : Int) : Res Loc :=
   else match l with
   | .compound _ => subLocationFromOffsets l (s * 3) (e * 3)
   | .simple p =>
-    match convertProteinToDna s e l with
-    | .valueError => .valueError
-    | .assertion => .assertion
-    | .ok (ds, de) =>
+    (convertProteinToDna s e l).bind fun (ds, de) =>
       if !(decide (ds < de)) then .valueError
       else if !(l.mem ds) then .valueError
       else
@@ -135,18 +139,11 @@ def adjustByOffset (l : Loc) (offset : Int) : Res Loc :=
   if offset = 0 then .ok l
   else if !(decide (-2 ≤ offset) && decide (offset ≤ 2)) then .assertion
   else match l with
-  | .simple p =>
-    match adjustSingle p offset with
-    | .ok q => .ok (.simple q)
-    | .valueError => .valueError
-    | .assertion => .assertion
+  | .simple p => (adjustSingle p offset).bind fun q => .ok (.simple q)
   | .compound [] => .assertion   -- unreachable
   | .compound (p :: rest) =>
     if !bridgesOrigin l && (if isRev l then decide (p.hi ≠ l.end) else decide (p.lo ≠ l.start)) then .assertion
-    else match adjustSingle p offset with
-    | .ok q => .ok (.compound (q :: rest))
-    | .valueError => .valueError
-    | .assertion => .assertion
+    else (adjustSingle p offset).bind fun q => .ok (.compound (q :: rest))
 
 /-- `frameshift_location_by_qualifier(location, raw_start: int, undo)` -/
 def frameshift (l : Loc) (rawStart : Int) (undo : Bool) : Res Loc :=
@@ -160,23 +157,10 @@ def frameshift (l : Loc) (rawStart : Int) (undo : Bool) : Res Loc :=
     lengths (in residues); the first failing call aborts -/
 def prepeptideSections (l : Loc) (leaderLen tailLen : Int) : Res (Option Loc × Loc × Option Loc) :=
   let total := l.len / 3
-  let leader : Res (Option Loc) :=
-    if leaderLen ≠ 0 then
-      match subLocation l 0 leaderLen with
-      | .ok r => .ok (some r) | .valueError => .valueError | .assertion => .assertion
-    else .ok none
-  match leader with
-  | .valueError => .valueError
-  | .assertion => .assertion
-  | .ok ld =>
-    match subLocation l leaderLen (total - tailLen) with
-    | .valueError => .valueError
-    | .assertion => .assertion
-    | .ok core =>
-      if tailLen ≠ 0 then
-        match subLocation l (total - tailLen) total with
-        | .ok t => .ok (ld, core, some t) | .valueError => .valueError | .assertion => .assertion
-      else .ok (ld, core, none)
+  (if leaderLen ≠ 0 then (subLocation l 0 leaderLen).bind fun r => .ok (some r) else .ok none).bind fun leader =>
+  (subLocation l leaderLen (total - tailLen)).bind fun core =>
+  (if tailLen ≠ 0 then (subLocation l (total - tailLen) total).bind fun r => .ok (some r) else .ok none).bind fun tail =>
+  .ok (leader, core, tail)
 
 /-- `len(set(xs)) != len(xs)` -/
 def hasDup : List Int → Bool
@@ -190,9 +174,7 @@ def containsOverlappingExons (l : Loc) : Bool :=
 /-- the part of `Feature.__init__` that can refuse a location built here: the constructor of every
     annotation (TTA marker, motif, domain) raises ValueError for exons sharing an end coordinate -/
 def featureAt (r : Res Loc) : Res Loc :=
-  match r with
-  | .ok l => if containsOverlappingExons l then .valueError else .ok l
-  | e => e
+  r.bind fun l => if containsOverlappingExons l then .valueError else .ok l
 
 /-- location of the marker made by `TTAResults.new_feature_from_other(feature, offset)` -/
 def ttaLocation (l : Loc) (offset : Int) : Res Loc :=
@@ -201,9 +183,7 @@ def ttaLocation (l : Loc) (offset : Int) : Res Loc :=
 /-- one iteration of the codon loop of `tta.detect` for a codon at `offset` that reads "tta":
     `none` = skipped (the codon cannot be held by a feature), else the marker's location -/
 def ttaDetectMarker (l : Loc) (offset : Int) : Res (Option Loc) :=
-  match subLocationFromOffsets l offset (offset + 3) with
-  | .ok r => if containsOverlappingExons r then .ok none else .ok (some r)
-  | .valueError => .valueError
-  | .assertion => .assertion
+  (subLocationFromOffsets l offset (offset + 3)).bind fun r =>
+    .ok (if containsOverlappingExons r then none else some r)
 
 end ASV.ProtDna
